@@ -23,11 +23,11 @@ META = {
     'functions': ['pyplate/slicer.py:Slicer.__init__', 'pyplate/slicer.py:Slicer.parse_slice', 'pyplate/slicer.py:Slicer.resolve_labels',
                   'pyplate/slicer.py:Slicer.parse_single', 'pyplate/slicer.py:Slicer.parse_tuple', 'pyplate/slicer.py:Slicer.get',
                   'pyplate/pyplate.py:Plate.__init__', 'pyplate/pyplate.py:Plate.__getitem__', 'pyplate/pyplate.py:PlateSlicer.__init__'],
-    'bounds': ("14 selector forms (row int; (r,c) ints; row slice with step; two slices; (row, stepped column slice); (slice, "
+    'bounds': ("15 selector forms (row int; (r,c) ints; row slice with step; two slices; (row, stepped column slice); (slice, "
                "column); list of two (r,c) tuples; label / 'r:c' string; (label,label); (label,int) and its integer twin; "
-               "label slice with step; list of two 'r:c' strings; 9 malformed shapes) x plates " + ', '.join(PLATE_DESCR) +
+               "label slice with step; list of two 'r:c' strings; a slice of a slice with non-negative relative bounds on 4 parent selections; 9 malformed shapes) x plates " + ', '.join(PLATE_DESCR) +
                "; integers unbounded (steps: symbolic up to 8, plus the concrete steps 9, 29, 1e6, 2^70), strings of length <= 3-4 over all of unicode."),
-    'outside': "sub-slicing a slice (plate[...][...], undocumented); labels containing ':'; plates other than the 7 listed.",
+    'outside': "negative relative indices and steps in slices of slices; labels containing ':'; plates other than the 7 listed.",
     'assumptions': ["numpy basic slicing with the resolved slice objects behaves like Python slicing (Slicer.get is executed, "
                     "CrossHair realises the slice bounds at the numpy boundary per path)"],
 }
